@@ -12,7 +12,7 @@ RULE = ('complete product: sign x integer part {0,1,2,5,9,10,99,123,1234} x ever
         'digit extras; percent of every grid number (override, constant, literal) and of the integers -2000..2000; '
         'non-trivial = cases whose three rounding modes do not all agree, ties, and already-representable values')
 ASSUMPTIONS = ['the decimal a double stands for is its shortest round-trip text (repr), which is the typed decimal for <= 15 '
-               'significant digits', 'percent is judged to 15 significant digits as the statement says',
+               'significant digits', 'percent must equal the double nearest to x/100 rounded to 15 significant digits',
                'numbers are compared as exact doubles (int 3 == float 3.0)']
 
 INTS = ['0', '1', '2', '5', '9', '10', '99', '123', '1234']
@@ -152,7 +152,7 @@ def judge_pct(case, o, src, stats, i, vio):
     stats['nontrivial'] += 1
     stats['out:' + S.out_label(o)] += 1
     k, v = o
-    ok = k == 'VALUE' and not isinstance(v, bool) and isinstance(v, (int, float)) and not D.is_blank(v) and sig15(v) == sig15(e)
+    ok = k == 'VALUE' and not isinstance(v, bool) and isinstance(v, (int, float)) and not D.is_blank(v) and v == sig15(e)
     if not ok:
         d = Decimal(x)
         vio.append({'i': i, 'desc': {'func': 'PERCENT', 'sign': 'neg' if d < 0 else ('zero' if d == 0 else 'pos'), 'src': src,
